@@ -318,7 +318,22 @@ func c11Run(c *fw.Ctx, i int) {
 			c.HarnessError(fmt.Sprintf("C11 inputs do not decode: %v %v", e1, e2))
 			return nil, nil, false
 		}
-		return ld.Individuals(), rd.Individuals(), true
+		// now and then the lists are parts of their documents (a branch, a
+		// filtered list): everybody else in the documents is none of the
+		// comparison's business
+		part := func(l gedcom.IndividualNodes, which int) gedcom.IndividualNodes {
+			if which == 0 || i == c11BigCase {
+				return l
+			}
+			out := gedcom.IndividualNodes{}
+			for k, x := range l {
+				if (which == 1 && k%2 == 0) || (which == 2 && k < (len(l)+1)/2) {
+					out = append(out, x)
+				}
+			}
+			return out
+		}
+		return part(ld.Individuals(), []int{0, 0, 0, 0, 1, 0, 0}[i%7]), part(rd.Individuals(), []int{0, 0, 0, 1, 2, 0, 2}[i%7]), true
 	}
 	prev := runtime.GOMAXPROCS(procs)
 	defer runtime.GOMAXPROCS(prev)
@@ -435,6 +450,25 @@ func c11Run(c *fw.Ctx, i int) {
 				if !just {
 					c.Violation("unjustified-pair", fmt.Sprintf("%s was matched with %s but their weighted similarity %.4f is below %.4f, they share no unique identifier and no trusted pointer (jobs=%d)", a.Pointer(), b.Pointer(), ws, sim.MinimumWeightedSimilarity, jobs), payload)
 				}
+			}
+		}
+		inL, inR := map[*gedcom.IndividualNode]bool{}, map[*gedcom.IndividualNode]bool{}
+		for _, a := range l {
+			inL[a] = true
+		}
+		for _, b := range rr {
+			inR[b] = true
+		}
+		for a := range leftSeen {
+			if !inL[a] {
+				c.Violation("individual-not-in-the-compared-list:left", fmt.Sprintf("a result holds left individual %s, which is not in the list that was compared (jobs=%d)", a.Pointer(), jobs), payload)
+				break
+			}
+		}
+		for b := range rightSeen {
+			if !inR[b] {
+				c.Violation("individual-not-in-the-compared-list:right", fmt.Sprintf("a result holds right individual %s, which is not in the list that was compared (the list is a part of its document; jobs=%d)", b.Pointer(), jobs), payload)
+				break
 			}
 		}
 		for _, a := range l {
